@@ -614,7 +614,7 @@ def factor_shown(chk, F):
                     arm = a
     if arm is None:
         raise AnchorLost("no arm for the `u` pattern character")
-    first = [n for n in hir_walk(arm["body"]) if n.get("k") == "If" and n["cond"].get("k") == "Let" and H.expr_str(n["cond"]["init"]) == "parts.raw_unit"]
+    first = [n for n in hir_walk(arm["body"]) if n.get("k") == "If" and n["cond"].get("k") == "Let" and H.expr_str(n["cond"]["init"]).endswith(".raw_unit")]
     if not first:
         raise AnchorLost("`u` arm does not start with `if let Some(unit) = parts.raw_unit`")
     then = first[0]["then"]
@@ -622,11 +622,23 @@ def factor_shown(chk, F):
     for n in hir_walk(then):
         if n.get("k") == "If" and [c for c in hir_walk(n["then"]) if c.get("k") == "Continue"]:
             conts.append(H.expr_str(n["cond"], 300))
-    ok = bool(conts) and all("parts.factor.is_none()" in c and "parts.divfactor.is_none()" in c for c in conts)
+    ok = bool(conts) and all(".factor.is_none()" in c and ".divfactor.is_none()" in c for c in conts)
     chk.decide(ok, "factor-never-dropped", fk, "skip-only-without-factor", "%s:%d" % (fn.file, first[0]["line"]),
                "the unit section is skipped only when there is neither a factor nor a divfactor", "the `u` pattern skips its output under `%s` although a conversion factor may be present: numeral x factor no longer equals the value" % conts)
     txt = "\n".join(hirpp.tree(then))
-    okf = "if let Option::Some(f) = parts.factor" in txt and "if let Option::Some(d) = parts.divfactor" in txt
+    # (whatever the locals are called: an `if let Some(_) = <x>.factor` and one for `.divfactor`, each writing something)
+    def shown(field):
+        for n in hir_walk(then):
+            if n.get("k") == "If" and n["cond"].get("k") == "Let" and "Option::Some" in H.pat_str(n["cond"]["pat"]):
+                init = n["cond"]["init"]
+                while init.get("k") in ("AddrOf", "Unary", "DropTemps", "MethodCall") and (init.get("e") or init.get("a") or init.get("recv")):
+                    if init.get("k") == "MethodCall" and init["name"] not in ("as_ref", "as_deref", "clone"):
+                        break
+                    init = init.get("e") or init.get("a") or init.get("recv")
+                if init.get("k") == "Field" and init.get("name") == field and (H.method_calls(n["then"]) or [c for c in hir_walk(n["then"]) if c.get("k") == "Call"]):
+                    return True
+        return False
+    okf = shown("factor") and shown("divfactor")
     chk.decide(okf, "factor-never-dropped", fk, "both-parts-printed", "%s:%d" % (fn.file, first[0]["line"]), "factor and divfactor are both printed when present", "factor/divfactor are not both printed in the raw_unit branch")
 
 
